@@ -644,6 +644,12 @@ func runC09(c *Ctx) {
 							Spec: "a complete, well-formed answer; afterwards the server still answers", Finger: fp})
 					}
 				}
+				if !hostMode && c.NMism == 0 {
+					if bad, fp := c09LongKeys(c, inst, canaryInst, &st); bad != "" {
+						c.mismatch(Mismatch{Kind: "spec", Backend: kind, Case: []string{"options=" + os.name + " state=" + class, "PUT / GET / HEAD / DELETE of keys of 200 … 1100 bytes (one segment and nested)"}, Impl: bad,
+							Spec: "a complete, well-formed answer; afterwards the server still answers", Finger: fp})
+					}
+				}
 				// drain: bring the store to the state "everything deleted" through legitimate requests
 				// (every version by id, every key, every pending upload) and look at it once more
 				if !hostMode {
@@ -968,6 +974,52 @@ func c09PartNumbers(c *Ctx, inst, canary *impl.Instance, st *c09State) (string, 
 		c.hist(fmt.Sprintf("part-number-sweep:status:%d", r.Status))
 		if bad := c09Canary(c, canary, st, i); bad != "" {
 			return "after PUT ?partNumber=" + pn + ": " + bad, "c09:wedged:part-number"
+		}
+	}
+	return "", ""
+}
+
+// c09LongKeys: keys around the limits of the storage below (255-byte file names, the fs backends'
+// metadata file names of key + 33 bytes, the 1024-byte key limit): every request is answered —
+// an error is fine — and the server keeps answering (a failure path that leaves a lock held shows
+// as the next request hanging).
+func c09LongKeys(c *Ctx, inst, canary *impl.Instance, st *c09State) (string, string) {
+	n := 0
+	for _, l := range []int{200, 221, 222, 223, 224, 240, 254, 255, 256, 300, 1023, 1024, 1025, 1100} {
+		for _, nested := range []bool{false, true} {
+			key := strings.Repeat("k", l)
+			if nested {
+				if l > 255 {
+					key = strings.Repeat("d", 100) + "/" + strings.Repeat("k", l-101)
+				} else {
+					key = "dir/" + strings.Repeat("k", l-4)
+				}
+			}
+			p := "/" + impl.EscapePath(st.bucket) + "/" + key
+			for _, rq := range []impl.Req{
+				{Method: "PUT", Path: p, Body: bytes.NewReader([]byte("long-key")), Header: map[string]string{"X-Amz-Meta-L": fmt.Sprint(l)}},
+				{Method: "GET", Path: p},
+				{Method: "HEAD", Path: p},
+				{Method: "PUT", Path: p, Header: map[string]string{"X-Amz-Copy-Source": "/" + st.bucket + "/" + key}},
+				{Method: "DELETE", Path: p},
+			} {
+				r := inst.Do(rq)
+				c.R.Evaluations++
+				if ok, why := c09Wellformed(c, rq.Method, r); !ok {
+					fp := "c09:malformed-answer:long-key"
+					if strings.HasPrefix(why, "panic") {
+						fp = "c09:panic:long-key"
+					} else if why == "hang" {
+						fp = "c09:hang:long-key"
+					}
+					return fmt.Sprintf("%s of a %d-byte key (nested=%v) -> %s", rq.Method, l, nested, why), fp
+				}
+				c.hist(fmt.Sprintf("long-key-sweep:%s:status:%d", rq.Method, r.Status))
+			}
+			n++
+			if bad := c09Canary(c, canary, st, n); bad != "" {
+				return fmt.Sprintf("after the requests on a %d-byte key (nested=%v): %s", l, nested, bad), "c09:wedged:long-key"
+			}
 		}
 	}
 	return "", ""
